@@ -17,7 +17,7 @@ RULE = ("Hypothesis-generated classes of 1-5 parameters drawn from Integer, Numb
         "serialize_value/deserialize_value per parameter, a second deserialization of the same text after the first result was edited in place, instances that follow reassigned class defaults; oracle = rebuilt object equal in value and exact Python type "
         "(recursively), text parses as strict JSON. Non-trivial = the state contains a type-sensitive value (tuple, "
         "datetime with microseconds, date-only range, None, integer-valued float, bool in a Number, empty container, year "
-        "< 1000); distinct = case hash.")
+        "< 1000); distinct = case hash. Round 5: bools held by Integer / Number parameters and numeric tuple elements, falsy (empty container-like) instances.")
 ASSUMPTIONS = [
     "Date parameters hold naive datetimes; elements of Tuple/List/Dict are JSON-native (a tuple nested inside a container comes "
     "back as a list: that is JSON, not param); Number values are int/float/bool",
